@@ -408,6 +408,79 @@ func init() {
 					}
 				}
 			}
+			// wide objects: 300 named required properties (all present / one missing / one of the wrong kind / one too many), and 70 000 properties
+			// under additionalProperties (in the trace: the two kinds of property that occur, the requirement does not count them)
+			{
+				const wide = 300
+				props := make([]Prop, wide)
+				for i := range props {
+					props[i] = Prop{K: Key(fmt.Sprintf("p%03d", i)), N: Node{T: "lit", V: numV("1")}}
+				}
+				root := Node{T: "obj", Props: props}
+				sch, _, err := buildSchema(root, Env{}, false, true)
+				if err != nil || sch.Check() != nil {
+					fatal("the wide-object probe schema is not accepted")
+				}
+				for _, variant := range []struct {
+					missing, wrong int
+					extra          bool
+				}{{-1, -1, false}, {0, -1, false}, {256, -1, false}, {299, -1, false}, {-1, 0, false}, {-1, 255, false}, {-1, 256, false}, {-1, 299, false}, {-1, -1, true}} {
+					doc := Value{T: "obj"}
+					for i := wide - 1; i >= 0; i-- { // the document lists them in the reverse order
+						if i == variant.missing {
+							continue
+						}
+						v := Value{T: "num", B: bytesToInts([]byte("7"))}
+						if i == variant.wrong {
+							v = Value{T: "str", C: []int{120}}
+						}
+						doc.Ps = append(doc.Ps, KV{Key(fmt.Sprintf("p%03d", i)), v})
+					}
+					if variant.extra {
+						doc.Ps = append(doc.Ps, KV{Key("p300"), Value{T: "num", B: bytesToInts([]byte("7"))}})
+					}
+					got := validateValue(sch, doc)
+					calls++
+					w.Write(map[string]interface{}{"op": "validate", "schema": root, "env": Env{}, "opt": false, "doc": doc, "ok": got.OK,
+						"code": got.Code, "kind": got.Kind, "text": "300 required properties", "doctext": fmt.Sprintf("missing %d, wrong kind %d, extra %v", variant.missing, variant.wrong, variant.extra)})
+				}
+				open := Node{T: "obj", Rules: []Rule{rule("additionalProperties", idRV("integer"))}}
+				osch, _, err := buildSchema(open, Env{}, false, true)
+				if err != nil || osch.Check() != nil {
+					fatal("the open-object probe schema is not accepted")
+				}
+				for _, n := range []int{255, 256, 257, 70000} {
+					for _, at := range []int{0, 1, 256, n} {
+						if at > n {
+							continue
+						}
+						var sb strings.Builder
+						sb.WriteByte('{')
+						oddAt := -1
+						for i := 1; i <= n; i++ {
+							if i > 1 {
+								sb.WriteByte(',')
+							}
+							fmt.Fprintf(&sb, "\"k%d\":", i)
+							if i == at {
+								oddAt = sb.Len()
+								sb.WriteString("\"x\"")
+							} else {
+								sb.WriteString("7")
+							}
+						}
+						sb.WriteByte('}')
+						got := guard(func() error { return osch.Validate(jdoc.New("doc", sb.String())) })
+						calls++
+						ps := []interface{}{map[string]interface{}{"k": []int{107, 48}, "v": map[string]interface{}{"t": "num", "b": []int{55}}}}
+						if at > 0 {
+							ps = append(ps, map[string]interface{}{"k": []int{107, 57, 57}, "v": map[string]interface{}{"t": "str", "c": []int{120}}})
+						}
+						w.Write(map[string]interface{}{"op": "validate", "schema": open, "env": Env{}, "opt": false, "doc": map[string]interface{}{"t": "obj", "ps": ps}, "ok": got.OK,
+							"code": got.Code, "kind": got.Kind, "pos": got.Pos, "oddpos": oddAt, "text": renderSchema(open).Text, "doctext": fmt.Sprintf("%d properties, the odd one at %d", n, at)})
+					}
+				}
+			}
 			// the unit of minLength / maxLength on strings outside ASCII (bytes or code points: the statement does not say, but it is ONE unit):
 			// for every probe string the schemas {minLength: k, maxLength: k}, k = 0..9, accept it for exactly one k, its length
 			// the second member of a pair: the spelling of the document when it is not the plain one - \u escapes, a surrogate pair, and a
